@@ -71,4 +71,69 @@ Proof.
     unfold set_fin_flag; repeat (destr_inner; cbn [fst snd]); reflexivity.
 Qed.
 
+(* ---- the retransmission schedule: one retransmission per expiration before the limit ---- *)
+(* sender, SendEof / Cancelled: an ACK-timer expiration that is not the limit marks the EOF for ONE
+   retransmission and declares nothing *)
+Lemma s_ack_expiry_marks_eof now (s : sstate) :
+  let ca := c_update now (t_ack (s_timer s)) in
+  c_occurred ca = true -> c_count ca <> c_max ca ->
+  ht_ack_eof cksum now s = set_eof_flag true (supd_ack (fun _ => ca) s).
+Proof.
+  cbn zeta. intros Ho Hc. unfold ht_ack_eof, c_timeout_occurred. cbn [fst snd]. rewrite Ho.
+  cbn [s_timer supd_ack set_s_timer t_ack set_ack].
+  destruct (N.eqb_spec (c_count (c_update now (t_ack (s_timer s)))) (c_max (c_update now (t_ack (s_timer s))))); [contradiction|reflexivity].
+Qed.
+(* ... and no expiration, nothing at all *)
+Lemma s_no_ack_expiry_quiet now (s : sstate) :
+  c_occurred (c_update now (t_ack (s_timer s))) = false ->
+  ht_ack_eof cksum now s = supd_ack (fun _ => c_update now (t_ack (s_timer s))) s.
+Proof. intros Ho. unfold ht_ack_eof, c_timeout_occurred. cbn [fst snd]. rewrite Ho. reflexivity. Qed.
+(* the send arm then emits exactly one EOF PDU (the stored one), clears the mark and restarts the ACK
+   timer; without the mark it emits nothing *)
+Lemma s_send_eof_once resp_len req_len now (s : sstate) e :
+  s_eof s = Some (e, true) ->
+  let s' := send_eof resp_len req_len now s in
+  (exists p, s_out s' = OPdu p :: s_out s /\ o_payload p = PEof e) /\ s_eof s' = Some (e, false) /\
+  t_ack (s_timer s') = c_restart now (t_ack (s_timer s)) /\ send_eof resp_len req_len now s' = s'.
+Proof.
+  intros He. cbn zeta.
+  assert (E : send_eof resp_len req_len now s =
+              set_s_eof (Some (e, false)) (semit_pdu resp_len req_len (PEof e) (supd_ack (c_restart now) s))).
+  { unfold send_eof. rewrite He. unfold set_eof_flag.
+    change (s_eof (semit_pdu resp_len req_len (PEof e) (supd_ack (c_restart now) s))) with (s_eof s).
+    rewrite He. reflexivity. }
+  rewrite E. cbn. splits; auto. eexists. split; reflexivity.
+Qed.
+Lemma s_send_eof_unmarked resp_len req_len now (s : sstate) :
+  eof_flag s = false -> send_eof resp_len req_len now s = s.
+Proof. unfold eof_flag, send_eof. destruct (s_eof s) as [[e [|]]|]; intros H; [discriminate|reflexivity|reflexivity]. Qed.
+
+(* receiver, Finished / Cancelled: an ACK-timer expiration that is not the limit marks the Finished
+   PDU for ONE retransmission, restarts the ACK timer and declares nothing *)
+Lemma r_ack_expiry_marks_finished now (s : rstate) :
+  r_phase s <> RecvData ->
+  let c := c_update now (t_ack (r_timer s)) in
+  c_count c <> c_max c -> c_occurred c = true ->
+  ht_ackphase now s = upd_ack (c_restart now) (set_fin_flag true (upd_ack (fun _ => c) s)).
+Proof.
+  intros Hp. cbn zeta. intros Hc Ho. unfold ht_ackphase, c_limit_reached. cbn [fst snd].
+  destruct (N.eqb_spec (c_count (c_update now (t_ack (r_timer s)))) (c_max (c_update now (t_ack (r_timer s))))); [contradiction|].
+  destruct (r_phase s); [congruence| |]; rewrite Ho; reflexivity.
+Qed.
+(* the send arm then emits exactly one Finished PDU (the prepared one) and clears the mark *)
+Lemma r_send_finished_once resp_len req_len now (s : rstate) f :
+  r_fin s = Some (f, true) ->
+  let s' := send_finished resp_len req_len now s in
+  (exists p, r_out s' = OPdu p :: r_out s /\ o_payload p = PFinished f) /\ r_fin s' = Some (f, false).
+Proof.
+  intros He. cbn zeta.
+  assert (E : send_finished resp_len req_len now s =
+              set_r_fin (Some (f, false)) (emit_pdu resp_len req_len (PFinished f) (upd_ack (c_restart now) s))).
+  { unfold send_finished. change (r_fin (upd_ack (c_restart now) s)) with (r_fin s). rewrite He.
+    unfold set_fin_flag.
+    change (r_fin (emit_pdu resp_len req_len (PFinished f) (upd_ack (c_restart now) s))) with (r_fin s).
+    rewrite He. reflexivity. }
+  rewrite E. cbn. split; [eexists; split; reflexivity|reflexivity].
+Qed.
+
 End FaultP.
